@@ -91,17 +91,26 @@ def forbidden_tokens():
     return hits
 
 
+def prop_modules(prop):
+    """Relic/Props/Cnn.lean plus per-format fragments Relic/Props/Cnn_*.lean"""
+    d = os.path.join(LEAN, "Relic", "Props")
+    return sorted(fn[:-5] for fn in os.listdir(d) if fn == prop + ".lean" or (fn.startswith(prop + "_") and fn.endswith(".lean")))
+
+
 def theorems_of(prop):
-    """names of the property theorems: every `theorem` in Relic/Props/Cnn.lean"""
-    src = strip_lean_comments(open(os.path.join(LEAN, "Relic", "Props", prop + ".lean")).read())
-    ns = re.search(r"^namespace\s+(\S+)", src, re.M)
-    prefix = ns.group(1) + "." if ns else ""
-    return [prefix + n for n in re.findall(r"^\s*theorem\s+([A-Za-z_][\w.']*)", src, re.M)]
+    """names of the property theorems: every `theorem` in Relic/Props/Cnn.lean and Cnn_*.lean"""
+    out = []
+    for m in prop_modules(prop):
+        src = strip_lean_comments(open(os.path.join(LEAN, "Relic", "Props", m + ".lean")).read())
+        ns = re.search(r"^namespace\s+(\S+)", src, re.M)
+        prefix = ns.group(1) + "." if ns else ""
+        out += [prefix + n for n in re.findall(r"^\s*theorem\s+([A-Za-z_][\w.']*)", src, re.M)]
+    return out
 
 
 def audit(prop, extra_modules=()):
     """lake build the property module, then #print axioms on every property theorem."""
-    mods = ["Relic.Props." + prop] + list(extra_modules)
+    mods = ["Relic.Props." + m for m in prop_modules(prop)] + list(extra_modules)
     lean_build(mods + ["relic_driver"])
     bad = forbidden_tokens()
     if bad:
@@ -231,6 +240,9 @@ def correspondence(prop, ctx, mod):
     for op, il, ml in zip(ops, impl, model):
         mres, tag = split_tag(ml)
         il_c = mod.canon_impl(il) if hasattr(mod, "canon_impl") else il
+        if hasattr(mod, "canon_model"):
+            mres = mod.canon_model(op, mres)
+        same = mod.equiv(op, il_c, mres) if hasattr(mod, "equiv") else (il_c == mres)
         kinds[" ".join(op.split()[:2])] += 1
         tags[mod.branch(op, mres, tag) if hasattr(mod, "branch") else mres.split(" ")[0]] += 1
         if op not in seen:
@@ -240,14 +252,14 @@ def correspondence(prop, ctx, mod):
         # 1. the property predicate, evaluated on what the implementation actually did
         bad = mod.predicate(op, il_c, mres, tag)
         kn = None
-        if bad or il_c != mres:
+        if bad or not same:
             kn = next((k for k in known if mod.matches_known(k, op, il_c, mres, tag)), None)
         if kn is not None:
             known_hits.append((kn, op))
             continue
         if bad:
             findings.append(Finding("counterexample", mod.TIE, bad[0], op, bad[1], il_c, bad[2] if len(bad) > 2 else ""))
-        elif il_c != mres:
+        elif not same:
             findings.append(Finding("broken-tie", mod.TIE, mod.TIE_THEOREM, op, mres, il_c,
                                     "model and implementation disagree; property predicate not falsified on this op"))
     cov = {"evaluations": len(ops), "distinct_nontrivial": nontrivial, "rule": mod.RULE,
